@@ -246,7 +246,17 @@ def run_stage(pid, stage, tier, seed, workdir, replay_case=None):
                         continue
                 local["inconclusive"].append("stage %s shard %d: watchdog (%ds) fired at case %s" % (name, shard, timeout, j))
                 return local
-            # the worker died (signal, sanitizer abort, exit != 0 without summary)
+            # the worker died (signal, sanitizer abort, exit != 0 without summary): keep what it observed up to its last checkpoint
+            if not got_summary:
+                cp = os.path.join(outdir, "checkpoint_%d.json" % shard)
+                try:
+                    o = json.loads(open(cp).read())
+                    if o.get("type") == "summary":
+                        o["from_checkpoint"] = True
+                        local["summaries"].append(o)
+                    os.unlink(cp)
+                except Exception:
+                    pass
             if j is None or j < 0:
                 local["inconclusive"].append("stage %s shard %d: worker failed outside a case (rc=%s): %s" % (name, shard, rc, err[-400:]))
                 return local
